@@ -33,6 +33,12 @@ C13_CountBounds == IsTicks => CountBounds(T.m, Cnt)
 C13_LabelsDistinct == IsTicks => \A i, j \in 1..Cnt : i # j => T.lab[i] # T.lab[j]
 C13_LabelsReadBack == IsTicks => \A i \in 1..Cnt : CAbsL(T.lq[i] - T.tq[i]) <= Tol
 
+\* conformance of the operational tick model (LinTicks.Steps / TickNs) with the observed ticks: drift only
+Drift_LinModelExplainsTicks == (IsTicks /\ T.err = "" /\ T.hi - T.lo >= T.m /\ T.hi - T.lo < 60000000 /\ Cnt >= 2) =>
+    \E s \in Steps(T.hi - T.lo, T.m) :
+        /\ s = StepQ
+        /\ \A i \in 1..Cnt : T.n[i] \in (CeilDiv(T.lo - Tol, s))..(FloorDiv(T.hi + Tol, s))
+        /\ Cnt >= FloorDiv(T.hi - Tol, s) - CeilDiv(T.lo + Tol, s) + 1
 \* ------------------------------------------------------------------ C14 (linear)
 C14_NeverInward == IsNice => T.nlo <= T.lo + Tol /\ T.nhi >= T.hi - Tol
 C14_KeepsOrientation == IsNice => T.rev_in = T.rev_out
